@@ -68,23 +68,16 @@ func GetTimeFromTicks(intervalStart uint64, intervalsPerDay, intervalTicks uint3
 	const (
 		ticksPerIntervalDivSecsPerDay float64 = 49710.269629629629629629629629629
 		nanosecond                    float64 = 1000000000
-		subnanosecond                 float64 = 100000000
 	)
 
 	fractionalSeconds := float64(intervalTicks) / (float64(intervalsPerDay) * ticksPerIntervalDivSecsPerDay)
-	subseconds := nanosecond * (fractionalSeconds - math.Floor(fractionalSeconds))
-	if subseconds >= nanosecond {
-		subseconds -= nanosecond
-		fractionalSeconds++
-	}
 
-	// in order to keep compatibility with the old rewriteBuffer implemented in C with some round error,
-	// fractionalSeconds should be rounded here.
-	sec = intervalStart + uint64(math.Round(fractionalSeconds*subnanosecond)/subnanosecond)
-	// round the subseconds after the decimal point to minimize the cancellation error of subseconds
-	// round( subseconds ) = (int32_t)(subseconds + 0.5)
-	const round = 0.5
-	nanosec = uint32(subseconds + round)
+	// Round the offset to whole nanoseconds once and derive both the second and
+	// the nanosecond part from that single value, so that a carry into the next
+	// second is applied to both consistently.
+	totalNanos := uint64(math.Round(fractionalSeconds * nanosecond))
+	sec = intervalStart + totalNanos/uint64(nanosecond)
+	nanosec = uint32(totalNanos % uint64(nanosecond))
 
 	return sec, nanosec
 }
